@@ -15,13 +15,13 @@ Idempotent(e) == e.n2 = e.n1
 \* (that the reparsed normal form evaluates identically is C06's check, run on normal forms there)
 Reparses(e) == "rules" \in DOMAIN e.reparse
 
-Verdict(e) ==
-  IF "panic" \in DOMAIN e THEN "panic"
-  ELSE IF ~MeaningOk(e) THEN "meaning"
-  ELSE IF ~Idempotent(e) THEN "idempotence"
-  ELSE IF ~e.deterministic THEN "determinism"
-  ELSE IF ~Reparses(e) THEN "reparse"
-  ELSE "ok"
+Failing(e) ==
+  IF "panic" \in DOMAIN e THEN {}
+  ELSE (IF MeaningOk(e) THEN {} ELSE {"meaning"})
+       \cup (IF Idempotent(e) THEN {} ELSE {"idempotence"})
+       \cup (IF e.deterministic THEN {} ELSE {"determinism"})
+       \cup (IF Reparses(e) THEN {} ELSE {"reparse"})
+Verdict(e) == IF "panic" \in DOMAIN e THEN "panic" ELSE IF Failing(e) = {} THEN "ok" ELSE CHOOSE x \in Failing(e) : TRUE
 
 FirstDiff(e) == LET i == CHOOSE i \in DOMAIN e.windows : e.runs1[i] # e.runs2[i]
                 IN [window |-> e.windows[i], original |-> e.runs1[i], normalized |-> e.runs2[i]]
@@ -32,9 +32,9 @@ Report(k) ==
   IN /\ PrintT(<<"STAT", ToJson([id |-> e.id, v |-> v,
                                  changed |-> IF "n1" \in DOMAIN e THEN e.n1 # e.expr ELSE FALSE,
                                  windows |-> IF "windows" \in DOMAIN e THEN Len(e.windows) ELSE 0])>>)
-     /\ (v \in {"ok", "panic"} \/
-         PrintT(<<"MISMATCH", ToJson([id |-> e.id, what |-> v,
-                                      diff |-> IF v = "meaning" THEN FirstDiff(e) ELSE <<>>])>>))
+     \* every failing clause is reported (C07 takes "meaning", C13 the others)
+     /\ \A w \in Failing(e) :
+          PrintT(<<"MISMATCH", ToJson([id |-> e.id, what |-> w, diff |-> IF w = "meaning" THEN FirstDiff(e) ELSE <<>>])>>)
 
 Init == l = 0
 Next == l < Len(Rec) /\ l' = l + 1 /\ Report(l + 1)
